@@ -259,3 +259,56 @@ def peek(f, ch, tail):
         size = int.from_bytes(bytes(fp['size']), 'big')
         un, _ = do_unmarshal((b + tail)[:size + 8])
     return {'in': fin, 'ch': ch, 'out': {'r': 'ok', 'b': list(b)}, 'fp': fp, 'un': un, 'tail': len(tail)}
+
+
+# ---------------------------------------------------------------------------
+# stream sessions
+# ---------------------------------------------------------------------------
+def send(f, ch):
+    fin = a_frame(f)
+    try:
+        b = frame.marshal(f, ch)
+        return {'in': fin, 'ch': ch, 'out': {'r': 'ok', 'b': list(b)}}
+    except Exception as e:  # noqa
+        return {'in': fin, 'ch': ch, 'out': a_exc(e)}
+
+
+def try_decode(rx):
+    """greedy receiver step: unmarshal whatever is in the buffer, drop what was consumed"""
+    ev = {'buflen': len(rx.buf)}
+    out, f = do_unmarshal(rx.buf)
+    ev['out'] = out
+    progressed = False
+    if out['r'] == 'ok':
+        n = out['n']
+        if isinstance(n, int) and 0 < n <= len(rx.buf):
+            rx.buf = rx.buf[n:]
+            rx.got += 1
+            progressed = True
+    return ev, progressed
+
+
+def peek_read(rx):
+    """size-reading receiver step: frame_parts, then exactly size + 8 bytes"""
+    ev = {'buflen': len(rx.buf)}
+    if rx.buf[:4] == b'AMQP':
+        out, f = do_unmarshal(rx.buf)
+        ev['fp'] = {'r': 'skip'}
+    else:
+        fp = frame_parts(rx.buf)['out']
+        ev['fp'] = fp
+        if fp.get('r') != 'ok' or not fp.get('size'):
+            ev['out'] = {'r': 'wait'}
+            return ev, False
+        need = int.from_bytes(bytes(fp['size']), 'big') + 8
+        if len(rx.buf) < need:
+            ev['out'] = {'r': 'wait'}
+            return ev, False
+        out, f = do_unmarshal(rx.buf[:need])
+    ev['out'] = out
+    progressed = False
+    if out['r'] == 'ok' and isinstance(out['n'], int) and 0 < out['n'] <= len(rx.buf):
+        rx.buf = rx.buf[out['n']:]
+        rx.got += 1
+        progressed = True
+    return ev, progressed
